@@ -1,10 +1,12 @@
 /-
 C04 — cumulative ⇄ incremental conversion is exact, chained and self-inverse.
-Only property theorems live here (helper lemmas: `Lemmas/Basis.lean`, `Lemmas/BasisRows.lean`).
+Only property theorems and non-vacuity examples live here. Hypotheses (`WFcum`, `Consistent`,
+`Complete`, `RowChain`, `WFcumUpToKeys`, `WFincUpToKeys`) and helper lemmas: `Lemmas/BasisSpec.lean`,
+`Lemmas/BasisRows.lean`, `Lemmas/Basis.lean`.
 -/
 import Bermuda.Model.Basis
 import Bermuda.Spec.C04
-import Bermuda.Lemmas.BasisRows
+import Bermuda.Lemmas.BasisSpec
 namespace Bermuda.Properties.C04
 open Bermuda Std
 
@@ -22,32 +24,6 @@ theorem toCum_id_of_cumulative {t : List Cell} (h : Triangle.isIncremental t = f
   simp [Triangle.toCumulative, h]
 
 /-! ### 2. cumulative → incremental → cumulative -/
-
-/-- **H**: a valid cumulative triangle. `sorted` is the canonical form of C01 together with
-"distinct (metadata, period, evaluation date)"; `keys`: rows keep one key set; `types`: under every
-key other than `earned_premium` the row keeps one kind/dtype/shape, and no value is `None`. -/
-structure WFcum (t : List Cell) : Prop where
-  sorted : t.Pairwise (fun a b => Cell.cmp a b = .lt)
-  notInc : ∀ c ∈ t, c.kind ≠ .incremental
-  dates : ∀ c ∈ t, c.datesOk = true
-  psValid : ∀ c ∈ t, c.ps.valid = true
-  keys : ∀ a ∈ t, ∀ b ∈ t, rowKey a = rowKey b → sameKeys a.values b.values = true
-  types : ∀ a ∈ t, ∀ b ∈ t, rowKey a = rowKey b → DictCompat a.values b.values
-
-theorem WFcum.row {t : List Cell} (h : WFcum t) {k : RowKey} {r : List Cell}
-    (hr : r = t.filter (fun c => rowKey c == k)) : CumRow k r := by
-  have hsub : r.Sublist t := by rw [hr]; exact List.filter_sublist
-  have hmem : ∀ c ∈ r, c ∈ t := fun c hc => hsub.subset hc
-  have hkey : ∀ c ∈ r, rowKey c = k := by
-    intro c hc; rw [hr] at hc; simpa using (List.mem_filter.mp hc).2
-  have hkk : ∀ a ∈ r, ∀ b ∈ r, rowKey a = rowKey b := fun a ha b hb => (hkey a ha).trans (hkey b hb).symm
-  have hs := h.sorted.sublist hsub
-  refine ⟨hkey, fun c hc => h.dates c (hmem c hc), fun c hc => h.notInc c (hmem c hc), ?_, ?_, ?_⟩
-  · exact hs.imp_of_mem (fun {a b} ha hb hab => ev_lt_of_cmp_lt (hkk a ha b hb)
-      (prev_none_of_notInc (h.dates a (hmem a ha)) (h.notInc a (hmem a ha)))
-      (prev_none_of_notInc (h.dates b (hmem b hb)) (h.notInc b (hmem b hb))) hab)
-  · exact hs.imp_of_mem (fun {a b} ha hb _ => h.keys a (hmem a ha) b (hmem b hb) (hkk a ha b hb))
-  · exact hs.imp_of_mem (fun {a b} ha hb _ => h.types a (hmem a ha) b (hmem b hb) (hkk a ha b hb))
 
 /-- **to_cumulative ∘ to_incremental = id**, exactly: same cells in the same order with the same
 dates, metadata, key order, values and value kinds; the class becomes `CumulativeCell`
@@ -118,39 +94,6 @@ theorem toCum_toInc {t : List Cell} (h : WFcum t) :
 
 
 /-! ### 3. incremental → cumulative → incremental -/
-
-/-- the cells of row `k` (one slice, one period), in triangle order, form a complete chain: the
-first starts the day before the period starts, every later one links to the evaluation date
-before it -/
-def RowChain (u : List Cell) (k : RowKey) : Prop :=
-  match u.filter (fun c => rowKey c == k) with
-  | [] => True
-  | x0 :: rest => x0.prev = some k.1.1.pred ∧ ChainFrom x0.ev rest
-
-/-- an incremental triangle in canonical form whose rows keep one key set and one value type per
-field (no `None`) -/
-structure Consistent (u : List Cell) : Prop where
-  sorted : u.Pairwise (fun a b => Cell.cmp a b = .lt)
-  isInc : ∀ c ∈ u, c.kind = .incremental
-  dates : ∀ c ∈ u, c.datesOk = true
-  psValid : ∀ c ∈ u, c.ps.valid = true
-  keys : ∀ a ∈ u, ∀ b ∈ u, rowKey a = rowKey b → sameKeys a.values b.values = true
-  types : ∀ a ∈ u, ∀ b ∈ u, rowKey a = rowKey b → DictCompat a.values b.values
-
-/-- a complete incremental triangle: consistent, and every row is a complete chain -/
-def Complete (u : List Cell) : Prop := Consistent u ∧ ∀ k, RowChain u k
-
-theorem Consistent.row {u : List Cell} (h : Consistent u) {k : RowKey} {r : List Cell}
-    (hr : r = u.filter (fun c => rowKey c == k)) : IncRow k r := by
-  have hsub : r.Sublist u := by rw [hr]; exact List.filter_sublist
-  have hmem : ∀ c ∈ r, c ∈ u := fun c hc => hsub.subset hc
-  have hkey : ∀ c ∈ r, rowKey c = k := by
-    intro c hc; rw [hr] at hc; simpa using (List.mem_filter.mp hc).2
-  have hkk : ∀ a ∈ r, ∀ b ∈ r, rowKey a = rowKey b := fun a ha b hb => (hkey a ha).trans (hkey b hb).symm
-  have hs := h.sorted.sublist hsub
-  exact ⟨hkey, fun c hc => h.dates c (hmem c hc), fun c hc => h.isInc c (hmem c hc),
-    hs.imp_of_mem (fun {a b} ha hb _ => h.keys a (hmem a ha) b (hmem b hb) (hkk a ha b hb)),
-    hs.imp_of_mem (fun {a b} ha hb _ => h.types a (hmem a ha) b (hmem b hb) (hkk a ha b hb))⟩
 
 /-- **to_incremental ∘ to_cumulative = id** on every complete incremental triangle, exactly -/
 theorem toInc_toCum {u : List Cell} (h : Complete u) :
@@ -273,15 +216,6 @@ theorem toCum_error_of_broken_chain {u : List Cell} (hc : Consistent u)
     Except.map, Except.bind]
 
 
-/-- a cumulative triangle in canonical form in which, apart from the key sets, consecutive cells of
-every row are compatible -/
-structure WFcumUpToKeys (t : List Cell) : Prop where
-  sorted : t.Pairwise (fun a b => Cell.cmp a b = .lt)
-  notInc : ∀ c ∈ t, c.kind ≠ .incremental
-  dates : ∀ c ∈ t, c.datesOk = true
-  psValid : ∀ c ∈ t, c.ps.valid = true
-  adj : ∀ k, AdjOK (t.filter (fun c => rowKey c == k))
-
 /-- **refusal of inconsistent fields (cumulative side)**: if in some row two consecutive cells have
 different key sets, `to_incremental` raises `TriangleError`. -/
 theorem toInc_error_of_key_mismatch {t : List Cell} (h : WFcumUpToKeys t)
@@ -345,14 +279,6 @@ theorem toInc_error_of_key_mismatch {t : List Cell} (h : WFcumUpToKeys t)
     Except.map, Except.bind]
 
 
-/-- an incremental triangle in canonical form in which, apart from the key sets, consecutive cells
-of every row are compatible -/
-structure WFincUpToKeys (u : List Cell) : Prop where
-  sorted : u.Pairwise (fun a b => Cell.cmp a b = .lt)
-  isInc : ∀ c ∈ u, c.kind = .incremental
-  dates : ∀ c ∈ u, c.datesOk = true
-  adj : ∀ k, AdjOK (u.filter (fun c => rowKey c == k))
-
 /-- **refusal of inconsistent fields (incremental side)**: if in some row two consecutive cells have
 different key sets, `to_cumulative` raises `TriangleError` (whether or not the chain is complete). -/
 theorem toCum_error_of_key_mismatch {u : List Cell} (h : WFincUpToKeys u)
@@ -402,159 +328,111 @@ theorem toCum_error_of_key_mismatch {u : List Cell} (h : WFincUpToKeys u)
     Except.map, Except.bind]
 
 
-/-! ### 5. the executable Spec predicate on the model's output -/
 
--- OPEN toInc_row_spec
--- theorem toInc_row_spec {t : List Cell} (h : WFcum t) (hnd : ∀ c ∈ t, (c.values.map (·.1)).Nodup) :
---     ∃ u, Triangle.toIncremental t = .ok u ∧ Spec.toIncRowSpec t u = true
--- (the Bool predicate of Spec/C04.lean, which finds the predecessor of a cell as the cell of its row
---  with the greatest smaller evaluation date and compares values key by key; evaluated by the driver
---  on every implementation output. Proved so far: `toInc_row_spec_partial` below — the same content
---  stated through the row function of the model.)
+/-! ### 5. the executable Spec predicates hold of the model's outputs -/
 
-/-- **per-row shape of `to_incremental`** (weaker than `toInc_row_spec`: stated through the row
-function `incRow` of the model instead of the independent predicate `Spec.toIncRowSpec`).
-For a valid cumulative triangle the conversion succeeds, the result is sorted and incremental, and
-for every slice and period the cells of the result under that slice and period are exactly the
-increments `incRow` computes from the row: one per evaluation date (`ds.map ev = r.map ev`), the
-first with `prev = period_start − 1 day` and a copy of the values, every later one with
-`prev =` the preceding evaluation date and `values = _values_diff(previous, this)` (definition of
-`incRow`/`incPairs`). Missing for the full statement: the bridge from `incRow` to the
-lookup-based predicate `Spec.toIncRowSpec` (predecessor = greatest smaller evaluation date). -/
-theorem toInc_row_spec_partial {t : List Cell} (h : WFcum t) :
-    ∃ u, Triangle.toIncremental t = .ok u ∧ u.Pairwise (fun a b => Cell.le a b) ∧
-      (∀ c ∈ u, c.kind = .incremental) ∧ u.length = t.length ∧
-      ∀ k r, r ≠ [] → r = t.filter (fun c => rowKey c == k) →
-        ∃ ds, incRow k r = .ok ds ∧ u.filter (fun c => rowKey c == k) = ds ∧
-          ds.map (·.ev) = r.map (·.ev) := by
-  have hrow : ∀ k r, r ≠ [] → r = t.filter (fun c => rowKey c == k) →
-      ∃ d, incRow k r = .ok d ∧ (∀ c ∈ d, rowKey c = k) ∧ StrictSorted d ∧
-        (∀ c ∈ d, c.kind = .incremental) ∧ d.map (·.ev) = r.map (·.ev) := by
-    intro k r hne hr
-    have R := h.row hr
-    cases r with
-    | nil => exact absurd rfl hne
-    | cons c0 rest =>
-      have hc0t : c0 ∈ t := by
-        have : c0 ∈ t.filter (fun c => rowKey c == k) := by rw [← hr]; simp
-        exact (List.mem_filter.mp this).1
-      have hv : k.1.1.valid = true := by
-        have := h.psValid c0 hc0t
-        rw [← R.key c0 (by simp)]; exact this
-      obtain ⟨ds, h1, _, h3, h4⟩ := incRow_cumRow R hv
-      refine ⟨ds, h1, fun c hc => (h4 c hc).2.1, ?_, fun c hc => (h4 c hc).1, h3⟩
-      apply strict_of_evs (fun c hc => (h4 c hc).2.1)
-      rw [h3, List.pairwise_map]; exact R.evs
-  obtain ⟨D, hD, hblocks⟩ := overRows_blocks (f := incRow) h.sorted
-    (fun k r hne hr => by
-      obtain ⟨d, h1, h2, h3, _⟩ := hrow k r hne hr
-      exact ⟨d, h1, h2, h3⟩)
-  obtain ⟨u, hu1, hu2⟩ := toCum_toInc h
-  have hu : u = D.mergeSort Cell.le ∧ ∀ c ∈ D, c.kind = .incremental := by
-    simp only [Triangle.toIncremental, not_isIncremental_of_all h.notInc, Bool.false_eq_true,
-      if_false, hD, Except.bind] at hu1
-    unfold Triangle.ofCells at hu1
-    split at hu1
-    · cases hu1
-      refine ⟨rfl, ?_⟩
-      intro c hc
-      -- every cell of D comes out of some row
-      unfold overRows at hD
-      cases hm : (orderedRows t).mapM (fun p => incRow p.1 p.2) with
-      | error e => rw [hm] at hD; cases hD
-      | ok rows =>
-        rw [hm] at hD
-        simp only [Except.map] at hD
-        cases hD
-        obtain ⟨d, hd, hcd⟩ := List.mem_flatten.mp hc
-        -- use the row facts through membership in the mapM result
-        have key : ∀ (l : List (RowKey × List Cell)) (rows : List (List Cell)),
-            l.mapM (fun p => incRow p.1 p.2) = .ok rows → ∀ d ∈ rows, ∃ p ∈ l, incRow p.1 p.2 = .ok d := by
-          intro l
-          induction l with
-          | nil => intro rows hr d hd; simp [List.mapM_nil, pure, Except.pure] at hr; subst hr; cases hd
-          | cons a l ih =>
-            intro rows hr d hd
-            rw [List.mapM_cons] at hr
-            cases ha : incRow a.1 a.2 with
-            | error e => rw [ha] at hr; cases hr
-            | ok da =>
-              cases hl : l.mapM (fun p => incRow p.1 p.2) with
-              | error e => rw [ha, hl] at hr; cases hr
-              | ok dl =>
-                rw [ha, hl] at hr
-                simp only [bind, Except.bind, pure, Except.pure] at hr
-                cases hr
-                rcases List.mem_cons.mp hd with rfl | hd
-                · exact ⟨a, by simp, ha⟩
-                · obtain ⟨p, hp, hpd⟩ := ih dl hl d hd
-                  exact ⟨p, List.mem_cons_of_mem _ hp, hpd⟩
-        obtain ⟨p, hp, hpd⟩ := key _ _ hm d hd
-        have G := groupBy_inv rowKey t
-        rw [orderedRows_of_strict h.sorted] at hp
-        have hcont := G.content p hp
-        have hne : p.2 ≠ [] := by
-          obtain ⟨a, ha, hak⟩ := G.inhabited p hp
-          intro e
-          have : a ∈ p.2 := by rw [hcont]; exact List.mem_filter.mpr ⟨ha, by simp [hak]⟩
-          rw [e] at this; cases this
-        obtain ⟨d', h1, _, _, h4, _⟩ := hrow p.1 p.2 hne hcont
-        rw [hpd] at h1; cases h1
-        exact h4 c hcd
-    · cases hu1
-  obtain ⟨hu, hDinc⟩ := hu
-  have hperm : u.Perm D := by rw [hu]; exact List.mergeSort_perm _ _
-  refine ⟨u, hu1, by rw [hu]; exact sorted_mergeSort (cmp := Cell.cmp) D,
-    fun c hc => hDinc c (hperm.mem_iff.mp hc), ?_, ?_⟩
-  · -- u ~ D and D is a concatenation of rows with the lengths of the rows of t
-    have G := groupBy_inv rowKey t
-    have hrows := orderedRows_of_strict h.sorted
-    have hDeq : ∃ rows, (orderedRows t).mapM (fun p => incRow p.1 p.2) = .ok rows ∧ D = rows.flatten := by
-      unfold overRows at hD
-      cases hm : (orderedRows t).mapM (fun p => incRow p.1 p.2) with
-      | error e => rw [hm] at hD; cases hD
-      | ok rows => rw [hm] at hD; simp only [Except.map] at hD; cases hD; exact ⟨rows, rfl, rfl⟩
-    obtain ⟨rows, hm, hDr⟩ := hDeq
-    have lenkey : ∀ (l : List (RowKey × List Cell)) (rows : List (List Cell)),
-        (∀ p ∈ l, ∀ d, incRow p.1 p.2 = .ok d → d.length = p.2.length) →
-        l.mapM (fun p => incRow p.1 p.2) = .ok rows → rows.flatten.length = (l.flatMap (·.2)).length := by
-      intro l
-      induction l with
-      | nil => intro rows _ hr; simp [List.mapM_nil, pure, Except.pure] at hr; subst hr; rfl
-      | cons a l ih =>
-        intro rows hlen hr
-        rw [List.mapM_cons] at hr
-        cases ha : incRow a.1 a.2 with
-        | error e => rw [ha] at hr; cases hr
-        | ok da =>
-          cases hl : l.mapM (fun p => incRow p.1 p.2) with
-          | error e => rw [ha, hl] at hr; cases hr
-          | ok dl =>
-            rw [ha, hl] at hr
-            simp only [bind, Except.bind, pure, Except.pure] at hr
-            cases hr
-            simp only [List.flatten_cons, List.length_append, List.flatMap_cons]
-            rw [hlen a (by simp) da ha, ih dl (fun p hp => hlen p (List.mem_cons_of_mem _ hp)) hl]
-    have := lenkey _ rows (by
-      intro p hp d hpd
-      rw [hrows] at hp
-      have hcont := G.content p hp
-      have hne : p.2 ≠ [] := by
-        obtain ⟨a, ha, hak⟩ := G.inhabited p hp
-        intro e
-        have : a ∈ p.2 := by rw [hcont]; exact List.mem_filter.mpr ⟨ha, by simp [hak]⟩
-        rw [e] at this; cases this
-      obtain ⟨d', h1, _, _, _, h5⟩ := hrow p.1 p.2 hne hcont
-      rw [hpd] at h1; cases h1
-      have := congrArg List.length h5
-      simpa using this) hm
-    rw [hperm.length_eq, hDr, this, hrows, G.perm.length_eq]
-  · intro k r hne hr
-    obtain ⟨d, h1, h2⟩ := hblocks k r hne hr
-    obtain ⟨d', h1', _, _, _, h5⟩ := hrow k r hne hr
-    rw [h1] at h1'; cases h1'
-    exact ⟨d, h1, by rw [hu]; exact h2, h5⟩
+section
+open Spec
 
+/-- **C04, first clause, on the model**: for a valid cumulative triangle whose value dicts have
+distinct keys (as every Python dict has), `to_incremental` succeeds and the executable predicate
+`Spec.toIncRowSpec` — per slice and period one increment per evaluation date, previous date = the
+preceding evaluation date of the row (day before period start for the first), values = differences
+of consecutive cumulative values except `earned_premium` — holds of its result. -/
+theorem toInc_row_spec {t : List Cell} (h : WFcum t)
+    (hnd : ∀ c ∈ t, Spec.nodupKeys c.values = true) :
+    ∃ u, Triangle.toIncremental t = .ok u ∧ Spec.toIncRowSpec t u = true := by
+  obtain ⟨u, hu, hsorted, _, hlen, hrows⟩ := toInc_rows h
+  refine ⟨u, hu, ?_⟩
+  unfold Spec.toIncRowSpec
+  simp only [Bool.and_eq_true, beq_iff_eq, List.all_eq_true]
+  refine ⟨⟨hlen, chainB_of_pairwise_le hsorted⟩, ?_⟩
+  intro c hc
+  -- the row of `c`
+  have hcr : c ∈ t.filter (fun x => rowKey x == rowKey c) := List.mem_filter.mpr ⟨hc, by simp⟩
+  have hne : t.filter (fun x => rowKey x == rowKey c) ≠ [] := List.ne_nil_of_mem hcr
+  have R := h.row (k := rowKey c) (r := t.filter (fun x => rowKey x == rowKey c)) rfl
+  obtain ⟨ds, hds, hfilt, hevs⟩ := hrows (rowKey c) _ hne rfl
+  obtain ⟨pre, post, hsplit⟩ := List.append_of_mem hcr
+  obtain ⟨o, ho, hoev, hokind, hokey, hopred⟩ := incRow_spec hds hsplit
+  have hdsevs : ds.Pairwise (fun a b => a.ev < b.ev) := by
+    have := R.evs
+    rw [← List.pairwise_map (f := fun x : Cell => x.ev) (R := fun a b => a < b), ← hevs,
+      List.pairwise_map] at this
+    exact this
+  have hat : Spec.atCoord u c = [o] := by
+    unfold Spec.atCoord
+    have : (fun x : Cell => rowKey x == rowKey c && x.ev == c.ev) =
+        (fun a => (a.ev == o.ev) && (rowKey a == rowKey c)) := by
+      funext x; rw [Bool.and_comm, hoev]
+    rw [this, ← List.filter_filter, hfilt]
+    exact filter_ev_eq hdsevs ho
+  rw [hat]
+  -- the predecessor found by the lookup is the cell before `c` in the row
+  have hpred : Spec.predIn t c = pre.getLast? := by
+    have hev' := R.evs
+    rw [hsplit] at hev'
+    rw [predIn_eq, hsplit, filter_lt_split hev',
+      foldl_predStep pre none ((List.pairwise_append.mp hev').1) (fun b hb => by cases hb)]
+    cases pre.getLast? <;> rfl
+  have hps : (rowKey c).1.1 = c.ps := rfl
+  unfold Spec.incOf
+  rw [hpred]
+  cases hlast : pre.getLast? with
+  | none =>
+    rw [hlast] at hopred
+    simp only [hokind, hokey, hoev, hopred.1, hopred.2, hps, beq_self_eq_true, Bool.true_and,
+      dictEqv_refl (hnd c hc)]
+  | some p =>
+    rw [hlast] at hopred
+    have hpmem : p ∈ t.filter (fun x => rowKey x == rowKey c) := by
+      rw [hsplit]; exact List.mem_append_left _ (List.mem_of_getLast? hlast)
+    have hpt : p ∈ t := (List.mem_filter.mp hpmem).1
+    have hpk : rowKey p = rowKey c := by simpa using (List.mem_filter.mp hpmem).2
+    obtain ⟨_, hkeys, hentries⟩ := valuesDiff_inv hopred.2
+    have hsk1 : sameKeys p.values c.values = true := h.keys p hpt c hc hpk
+    have hsk2 : sameKeys o.values c.values = true := by
+      rw [sameKeys_congr hkeys rfl]; exact sameKeys_self _
+    have hnd2 : Spec.nodupKeys o.values = true := by
+      rw [nodupKeys_congr hkeys]; exact hnd c hc
+    simp only [hokind, hokey, hoev, hopred.1, hsk1, hsk2, hnd2, beq_self_eq_true, Bool.true_and,
+      List.all_eq_true]
+    intro kv hkv
+    obtain ⟨a1, a2⟩ := hentries kv hkv
+    by_cases hs : kv.1 = staticField
+    · simp only [hs, beq_self_eq_true, if_true]
+      have := a1 hs
+      rw [← hs, get?_of_mem_nodup (hnd c hc) (k := kv.1) (v := kv.2) this]; simp
+    · have hs' : (kv.1 == staticField) = false := by simpa using hs
+      obtain ⟨v, hv1, hv2⟩ := a2 hs
+      simp only [hs', Bool.false_eq_true, if_false]
+      rw [getD'_of_mem_nodup (hnd c hc) hv1, hv2]
+      simp [BEq.beq]
+
+
+/-- `Spec.roundTripCumSpec` (cell-by-cell equality with exact kinds, `Cell` read as `CumulativeCell`)
+holds of the model's `to_cumulative(to_incremental(t))` -/
+theorem roundTripCum_spec {t : List Cell} (h : WFcum t)
+    (hnd : ∀ c ∈ t, Spec.nodupKeys c.values = true) :
+    ∃ u back, Triangle.toIncremental t = .ok u ∧ Triangle.toCumulative u = .ok back ∧
+      Spec.roundTripCumSpec t back = true := by
+  obtain ⟨u, h1, h2⟩ := toCum_toInc h
+  refine ⟨u, _, h1, h2, ?_⟩
+  unfold Spec.roundTripCumSpec
+  apply cellsEqv_refl
+  intro c hc
+  obtain ⟨c', hc', rfl⟩ := List.mem_map.mp hc
+  exact hnd c' hc'
+
+/-- `Spec.roundTripIncSpec` holds of the model's `to_incremental(to_cumulative(u))` -/
+theorem roundTripInc_spec {u : List Cell} (h : Complete u)
+    (hnd : ∀ c ∈ u, Spec.nodupKeys c.values = true) :
+    ∃ t back, Triangle.toCumulative u = .ok t ∧ Triangle.toIncremental t = .ok back ∧
+      Spec.roundTripIncSpec u back = true := by
+  obtain ⟨t, h1, h2⟩ := toInc_toCum h
+  exact ⟨t, u, h1, h2, cellsEqv_refl hnd⟩
+
+end
 
 /-! ### 6. non-vacuity -/
 
@@ -576,20 +454,6 @@ def exT : List Cell :=
     mkC mB 2021 (d 2021 12 31) [7, 7] [8, 8] 60 ]
 
 
-/-- decidable form of `DictCompat` -/
-def dictCompatB (a b : Dict Val) : Bool :=
-  b.all fun kv => kv.1 == staticField ||
-    ((a.getD' kv.1).ty?.isSome && (a.getD' kv.1).ty? == kv.2.ty?)
-
-theorem dictCompat_of_B {a b : Dict Val} (h : dictCompatB a b = true) : DictCompat a b := by
-  intro kv hkv hns
-  have := List.all_eq_true.mp h kv hkv
-  simp only [Bool.or_eq_true, beq_iff_eq, Bool.and_eq_true] at this
-  rcases this with e | ⟨h1, h2⟩
-  · exact absurd e hns
-  · obtain ⟨τ, hτ⟩ := Option.isSome_iff_exists.mp h1
-    exact ⟨τ, hτ, by rw [← h2, hτ]⟩
-
 /-- non-vacuity: a ragged two-slice triangle (slice DE skips the 2021 evaluation, slice US has a
 second, shorter period) with int64-array, float64-array and float (`earned_premium`, varying in one
 row) values satisfies `WFcum` -/
@@ -604,42 +468,17 @@ theorem exT_wf : WFcum exT where
       decide +kernel
     exact fun a ha b hb e => dictCompat_of_B (this a ha b hb e)
 
-/-- hence the round trip theorem applies to it -/
+theorem exT_nodup : ∀ c ∈ exT, Spec.nodupKeys c.values = true := by decide +kernel
+
+/-- hence the round trip theorem and the Spec bridge apply to it -/
+example : ∃ u, Triangle.toIncremental exT = .ok u ∧ Spec.toIncRowSpec exT u = true :=
+  toInc_row_spec exT_wf exT_nodup
+
+
 example : ∃ u, Triangle.toIncremental exT = .ok u ∧
     Triangle.toCumulative u = .ok (Spec.asCumulative exT) := toCum_toInc exT_wf
 
 
-
-def chainFromB : Date → List Cell → Bool
-  | _, [] => true
-  | d, c :: rest => c.prev == some d && chainFromB c.ev rest
-
-theorem chainFrom_of_B : ∀ {d : Date} {l : List Cell}, chainFromB d l = true → ChainFrom d l
-  | _, [], _ => trivial
-  | d, c :: rest, h => by
-    simp only [chainFromB, Bool.and_eq_true, beq_iff_eq] at h
-    exact ⟨h.1, chainFrom_of_B h.2⟩
-
-def rowChainB (u : List Cell) (k : RowKey) : Bool :=
-  match u.filter (fun c => rowKey c == k) with
-  | [] => true
-  | x0 :: rest => x0.prev == some k.1.1.pred && chainFromB x0.ev rest
-
-theorem rowChain_of_B {u : List Cell} (h : ∀ c ∈ u, rowChainB u (rowKey c) = true) (k : RowKey) :
-    RowChain u k := by
-  unfold RowChain
-  cases hf : u.filter (fun c => rowKey c == k) with
-  | nil => trivial
-  | cons x0 rest =>
-    have hx : x0 ∈ u.filter (fun c => rowKey c == k) := by rw [hf]; simp
-    obtain ⟨hxu, hxk⟩ := List.mem_filter.mp hx
-    have hxk : rowKey x0 = k := by simpa using hxk
-    have := h x0 hxu
-    rw [hxk] at this
-    unfold rowChainB at this
-    rw [hf] at this
-    simp only [Bool.and_eq_true, beq_iff_eq] at this
-    exact ⟨this.1, chainFrom_of_B this.2⟩
 
 def mkI (md : Metadata) (y : Nat) (prev ev : Date) (paid : List Int) (ep : Rat) : Cell :=
   { kind := .incremental, ps := d y 1 1, pe := d y 12 31, prev := some prev, ev := ev, md := md,
@@ -666,26 +505,6 @@ example : ∃ t, Triangle.toCumulative exU = .ok t ∧ Triangle.toIncremental t 
 
 
 
-theorem chainFromB_of : ∀ {d : Date} {l : List Cell}, ChainFrom d l → chainFromB d l = true
-  | _, [], _ => rfl
-  | d, c :: rest, h => by
-    simp only [chainFromB, Bool.and_eq_true, beq_iff_eq]
-    exact ⟨h.1, chainFromB_of h.2⟩
-
-theorem not_rowChain_of_B {u : List Cell} {k : RowKey} (h : rowChainB u k = false) : ¬ RowChain u k := by
-  intro hc
-  unfold RowChain at hc
-  unfold rowChainB at h
-  cases hf : u.filter (fun c => rowKey c == k) with
-  | nil => rw [hf] at h; cases h
-  | cons x0 rest =>
-    rw [hf] at h hc
-    have : (x0.prev == some k.1.1.pred && chainFromB x0.ev rest) = true := by
-      simp only [Bool.and_eq_true, beq_iff_eq]
-      exact ⟨hc.1, chainFromB_of hc.2⟩
-    simp only at h
-    rw [this] at h; cases h
-
 /-- `exU` with one link removed (the 2021 evaluation of slice US, period 2020) -/
 def exUbroken : List Cell := exU.eraseIdx 3
 
@@ -701,3 +520,4 @@ example : Triangle.toCumulative exUbroken = .error .triangleError := by
 
 
 end Bermuda.Properties.C04
+
